@@ -45,9 +45,13 @@ def run(ctx):
     vlib.tlc_must_pass(ctx, res, "design run (overlay lemmas)")
     ctx.log("design: %d generated, %d distinct" % (res.generated, res.distinct))
     ctx.coverage.update(states=res.distinct, transitions=res.generated, exhaustive=True)
+    if not q:   # the fork operations (both objects of an Overlay.Copy kept) are in the small universe only
+        res2 = vlib.run_tlc(ctx, d, "MCMkvs", "design_map_quick.cfg", timeout=3000)
+        vlib.tlc_must_pass(ctx, res2, "design run (overlay lemmas incl. fork)")
 
     runs = []
     runs.append(mc.gen_replay(ctx, "gen_c03_quick.cfg" if q else "gen_c03_thorough.cfg", "c03", dbevery=4 if q else 1))
+    runs.append(mc.gen_replay(ctx, "gen_c03_fork_quick.cfg" if q else "gen_c03_fork_thorough.cfg", "c03", dbevery=4 if q else 2))
     runs.append(mc.gen_replay(ctx, "sim_c03.cfg", "c03", sim=(30, 40) if q else (600, 40)))
     runs.append(mc.gen_replay(ctx, "sim_c03.cfg", "c03tiny", sim=(10, 40) if q else (150, 40)))
     counts = {}
